@@ -131,7 +131,9 @@ def _numberish(s):
 def _disc(cat, props, case, expected, observed, why):
     return dict(category=cat, properties=props, case=case, expected=expected, observed=observed, why=why)
 
-def check_parse(repo_src, rnd, table=None, inputs=None):
+def check_parse(repo_src, rnd, table=None, inputs=None, random_only=False):
+    if random_only and inputs is None:
+        inputs = corpus.corrupt(corpus.random_parse_cases(rnd.randint(0, 10**6), 300), rnd, 1500) + corpus.random_parse_cases(rnd.randint(0, 10**6), 3000)
     ins = inputs if inputs is not None else (corpus.parse_cases() + corpus.long_parse_cases() + corpus.corrupt(corpus.SEEDS + corpus.parse_cases()[:400], rnd, 1500) + corpus.random_parse_cases(rnd.randint(0, 10**6)))
     ins = list(dict.fromkeys(ins))
     cases = [dict(m='rt', s=s) for s in ins]
@@ -173,7 +175,8 @@ def check_parse(repo_src, rnd, table=None, inputs=None):
                 out.append(_disc('roundtrip', ['C12'], c, r.get('expr'), r.get('expr2'), 'expr() is not idempotent'))
     return out, len(cases)
 
-def check_exec(repo_src, rnd, inputs=None):
+def check_exec(repo_src, rnd, inputs=None, random_only=False):
+    if random_only and inputs is None: inputs = corpus.random_exec_cases(rnd.randint(0, 10**6), 4000)
     ins = list(dict.fromkeys(inputs if inputs is not None else (corpus.exec_cases() + corpus.boundary_exec_cases() + corpus.random_exec_cases(rnd.randint(0, 10**6)))))
     cases = [dict(m='exec', s=s) for s in ins]
     res = run_cases(cases, repo_src)
@@ -301,11 +304,12 @@ CATS = {'parse': check_parse, 'exec': check_exec, 'conv': check_conv, 'script': 
 PROP_CATS = {'C01': ['parse', 'exec'], 'C02': ['parse', 'script'], 'C03': ['exec', 'script'], 'C04': ['exec', 'conv'], 'C05': ['parse'], 'C06': ['exec', 'script'], 'C07': ['exec', 'script'], 'C08': ['script', 'exec'],
              'C09': ['exec', 'parse'], 'C10': ['parse', 'script'], 'C12': ['parse'], 'C17': ['conv'], 'C18': ['parse']}
 _cache = {}
-def run_category(cat, repo_src, seed=0):
-    key = (cat, os.path.abspath(repo_src), seed)
+def run_category(cat, repo_src, seed=0, random_only=False):
+    """seed 0 is the registered corpus (fixed cases + the seed-0 random cases); other seeds with random_only draw fresh random cases only (thorough tier)"""
+    key = (cat, os.path.abspath(repo_src), seed, random_only)
     if key not in _cache:
         rnd = random.Random(seed)
-        _cache[key] = CATS[cat](repo_src, rnd)
+        _cache[key] = CATS[cat](repo_src, rnd, random_only=True) if (random_only and cat in ('parse', 'exec')) else CATS[cat](repo_src, rnd)
     return _cache[key]
 
 def search(pid, failure, repo_src, seed=0):
